@@ -11,6 +11,9 @@ TP_NOTE = ("trusted: gcc ASan/UBSan/LSan/TSan runtimes, the kernel's pipe/epoll 
            "relaxed atomics only so it adds no happens-before edges); interleavings and fault positions outside the sampled/enumerated set are unexamined")
 
 CHECKS = {
+    "C01": ("exploration", "runtime monitoring: every bn_* entry point executed in 9 digit-width/mul-div variants x gcc/clang x -O levels (plus ASan+UBSan, MSan) on one shared case stream; Python int decides each observation; two runs per case with different junk in dead storage decide value-only dependence; in-driver exhaustive enumeration at 8-bit digits",
+            "Held on the cases explored: boundary-biased operands (0, 1, 2^k+-1, all-ones, single bit, dense random), Knuth-D adversarial divisions forcing 0/1/2 quotient corrections, primes of every residue class for mod_sqrt, NAF w=2..8 and JSF recoding, binary/hex import/export at every buffer size 0..need+1, all permitted aliasing forms; per-operation regions must-succeed / may-fail / must-fail from the documented contract: success with a wrong value is a violation, as are structural invariant breaks, writes above capacity, and any difference between the two junk patterns; all operand pairs a < 2^16 x b < 2^12 (slices in quick) are enumerated against unsigned __int128 inside the 8-bit builds.",
+            "trusted: Python int, oracles/bn.py (Miller-Rabin, Tonelli, NAF/JSF property checkers; selftest in setup); Barrett, bn_egcd, bn_mod_inv3, bn_sqrt2-5 are outside the claim; operand space for >=32-bit digits is sampled; only gcc 12 / clang 14", "DESIGN.md 4 C01"),
     "C04": ("exploration", "runtime monitoring: real hash code in every compiled transform variant (portable/SSE/SHA-NI/AVX/small tables, gcc+clang, -O0/-O2/-O3, ASan+UBSan, MSan) driven over exhaustive lengths, chunkings and alignments in exact-size buffers; hashlib and an independent Python Streebog decide; context non-interference monitor for zeroisation",
             "Held on the cases explored: every length 0..4 blocks with one-shot, byte-wise, all 2-way and random k-way splits incl. empty updates, all 64 source alignments at padding-adjacent lengths, 64 KiB and 1 MiB+1 messages, bit-counter state injection near 2^29/2^32/2^61/2^64 (and 2^124 for SHA-512), every compiled-in transform forced through the dispatch flags; digests, reported sizes and hex text of the three entry points compared with hashlib / Python Streebog (validated on RFC 6986/7836); after final the context image must not depend on the message.",
             "trusted: Python hashlib; oracles/streebog.py and oracles/mdhash.py (self-tested against RFC vectors / hashlib in setup); variants that do not compile are recorded not_selectable; only gcc 12 and clang 14", "DESIGN.md 4 C04"),
